@@ -800,6 +800,12 @@ func runConnCase(name string, in CaseIn) result {
 				closed = true
 				c.raw.Close()
 			}
+			if !cl && c.waited > 0 {
+				// a fatal error frame was not followed by the end of the stream: recorded as
+				// "not closed"; nothing more is sent on this connection
+				tags["fatal-frame-without-close"] = true
+				closed = true
+			}
 			_ = gi
 		}
 		c.raw.Close()
@@ -884,14 +890,18 @@ func runRealTTL(name string, in CaseIn) result {
 		pub = CmdIn{K: "MPUB", Args: []string{"tA"}, Mp: "ok", MpCount: 2}
 	}
 	t0 := time.Now()
-	step(1, CmdIn{K: "AUTH", Secret: "s"})
+	over := step(1, CmdIn{K: "AUTH", Secret: "s"})
 	tAuth := time.Now()
-	step(2, pub)
+	if !over {
+		over = step(2, pub)
+	}
 	if time.Since(t0) > 600*time.Millisecond {
 		return result{dropped: "realttl-slow"}
 	}
-	time.Sleep(time.Until(tAuth.Add(1400 * time.Millisecond)))
-	step(1500, pub)
+	if !over {
+		time.Sleep(time.Until(tAuth.Add(1400 * time.Millisecond)))
+		step(1500, pub)
+	}
 	terms := make([]string, len(gobs))
 	var labels []string
 	for i, g := range gobs {
